@@ -184,9 +184,28 @@ Corollary C04_product_dispatch :
 Proof. exact product_dispatch. Qed.
 Print Assumptions C04_product_dispatch.
 
-(* The setters' cross-validation has a hole (dims assigned before shape on a
-   bare LinearOperator with dimsd unset): recorded, not claimed away. *)
-Theorem C04_setter_order_hole_refuted :
-  exists st a, bind (set_dims [5] empty) (set_shape (3, 4)) = Some st /\ view st = Some a /\ wfb a = false.
-Proof. exact setter_order_hole. Qed.
-Print Assumptions C04_setter_order_hole_refuted.
+(* any non-raising sequence of assignments to shape / dims / dimsd, in any
+   order, leaves shape = (prod dimsd, prod dims) (shape setter as fixed by 55eb95e) *)
+Theorem C04_setters_any_order_shape_prod :
+  forall l st a, run_sops l empty = Some st -> view st = Some a ->
+    a_shape a = (prod (a_dimsd a), prod (a_dims a)).
+Proof. exact setters_any_order_wf. Qed.
+Print Assumptions C04_setters_any_order_shape_prod.
+Example C04_setters_any_order_ex :
+  (exists st, run_sops [SDimsd [2; 3]; SShape 6 4; SDims [2; 2]] empty = Some st /\ view st = Some (mk [2; 2] [2; 3] None))
+  /\ run_sops [SDims [5]; SShape 3 4] empty = None /\ run_sops [SDimsd [4]; SShape 3 4] empty = None.
+Proof. split; [eexists; split; reflexivity|split; reflexivity]. Qed.
+(* legacy guard (both dims and dimsd had to be set before shape was validated): witness of the old hole *)
+Theorem C04_legacy_setter_order_hole :
+  exists st a, bind (set_dims [5] empty) (Legacy.set_shape_legacy (3, 4)) = Some st /\ view st = Some a /\ wfb a = false.
+Proof. exact Legacy.setter_order_hole. Qed.
+Print Assumptions C04_legacy_setter_order_hole.
+
+(* solver wrapper: the result keeps N elements and is dims-shaped unless x0 was flat or forceflat = True *)
+Theorem C04_solver_wrap_size : forall dims ff x0, prod (solver_wrap_shape dims ff x0) = prod dims.
+Proof. exact solver_wrap_size. Qed.
+Print Assumptions C04_solver_wrap_size.
+Example C04_solver_wrap_ex :
+  solver_wrap_shape [2; 3] None None = [2; 3] /\ solver_wrap_shape [2; 3] None (Some [6]) = [6]
+  /\ solver_wrap_shape [2; 3] (Some true) (Some [2; 3]) = [6].
+Proof. repeat split; reflexivity. Qed.
